@@ -340,6 +340,102 @@ func mutants(root map[string]any, plan []planItem) []mutant {
 		}
 	}
 	walk(root, "", "", func(any) {}, nil)
+	// cooperating mutations ------------------------------------------------------------------
+	// (a) an array element duplicated with one (nested) member missing from the copy
+	var dupStrip func(x any, path string)
+	dupStrip = func(x any, path string) {
+		switch v := x.(type) {
+		case map[string]any:
+			for k, y := range v {
+				if a, ok := y.([]any); ok && len(a) > 0 {
+					if last, ok := a[len(a)-1].(map[string]any); ok {
+						var strip func(o map[string]any, depth int, p string)
+						strip = func(o map[string]any, depth int, p string) {
+							for mk, mv := range o {
+								delete(o, mk)
+								emit("dup-strip", p+"/"+mk)
+								o[mk] = mv
+								if sub, ok := mv.(map[string]any); ok && depth < 2 {
+									strip(sub, depth+1, p+"/"+mk)
+								}
+							}
+						}
+						cp := deepCopy(last).(map[string]any)
+						v[k] = append(append([]any{}, a...), cp)
+						strip(cp, 0, path+"/"+k+"/+")
+						v[k] = a
+					}
+				}
+				dupStrip(y, path+"/"+k)
+			}
+		case []any:
+			for i, y := range v {
+				dupStrip(y, fmt.Sprintf("%s/%d", path, i))
+			}
+		}
+	}
+	dupStrip(root, "")
+	// (b) pairs of mutations on identifying keys (regime / country / currency / addons / schema)
+	type pos struct {
+		set func(any)
+		old any
+		p   string
+	}
+	keyPos := map[string][]pos{}
+	var find func(x any, path string)
+	find = func(x any, path string) {
+		switch v := x.(type) {
+		case map[string]any:
+			for k, y := range v {
+				k, y := k, y
+				switch k {
+				case "$regime", "currency", "country", "$addons", "$schema":
+					keyPos[k] = append(keyPos[k], pos{func(z any) { v[k] = z }, y, path + "/" + k})
+				}
+				find(y, path+"/"+k)
+			}
+		case []any:
+			for i, y := range v {
+				find(y, fmt.Sprintf("%s/%d", path, i))
+			}
+		}
+	}
+	find(root, "")
+	keys := []string{"$regime", "currency", "country", "$addons", "$schema"}
+	vals := []any{"ZZZ", nil, ""}
+	for i, ka := range keys {
+		for _, kb := range keys[i:] {
+			for _, pa := range keyPos[ka] {
+				for _, pb := range keyPos[kb] {
+					if pa.p == pb.p {
+						continue
+					}
+					for _, va := range vals {
+						for _, vb := range vals {
+							pa.set(va)
+							pb.set(vb)
+							emit("pair", pa.p+"+"+pb.p)
+							pa.set(pa.old)
+							pb.set(pb.old)
+						}
+					}
+				}
+			}
+		}
+	}
+	// (c) envelopes with empty entries in their signature list
+	if s, _ := root["$schema"].(string); strings.HasSuffix(s, "/envelope") {
+		old, had := root["sigs"]
+		for _, v := range []any{[]any{""}, []any{nil}, []any{"", "x.y.z"}} {
+			root["sigs"] = v
+			emit("empty-signature", "/sigs")
+		}
+		if had {
+			root["sigs"] = old
+		} else {
+			delete(root, "sigs")
+		}
+	}
 	return out
 }
 
@@ -392,12 +488,27 @@ func crashRun(repo, planFile string, seed int64, capPerDoc, nbytes int, bulkBin,
 		ms := mutants(root, plan)
 		if capPerDoc > 0 && len(ms) > capPerDoc {
 			r.Shuffle(len(ms), func(i, j int) { ms[i], ms[j] = ms[j], ms[i] })
-			ms = ms[:capPerDoc]
+			// keep a share of each family
+			var sel []mutant
+			quota := map[string]int{"pair": capPerDoc / 3, "dup-strip": capPerDoc / 3, "empty-signature": 3}
+			n := 0
+			for _, m := range ms {
+				if q, ok := quota[m.mut]; ok {
+					if q > 0 {
+						quota[m.mut] = q - 1
+						sel = append(sel, m)
+					}
+				} else if n < capPerDoc {
+					n++
+					sel = append(sel, m)
+				}
+			}
+			ms = sel
 		}
 		for i, m := range ms {
 			m := m
 			w.Emit(crashEvent{K: "pipeline", Src: name, Mut: m.mut, Path: m.path, Steps: withWatchdog(func() []crashStep { return runPipeline(m.data) })})
-			if i%9 == 0 {
+			if i%9 == 0 || m.mut == "empty-signature" || m.mut == "pair" {
 				bulkInputs = append(bulkInputs, m)
 				bulkSrc = append(bulkSrc, name)
 			}
@@ -474,8 +585,13 @@ func crashRun(repo, planFile string, seed int64, capPerDoc, nbytes int, bulkBin,
 			for i := start; i < end; i++ {
 				m := bulkInputs[i]
 				action := []string{"build", "validate", "correct", "replicate"}[i%4]
+				if m.mut == "empty-signature" {
+					action = "verify"
+				}
 				var payload any
 				switch action {
+				case "verify":
+					payload = map[string]any{"data": m.data, "publickey": crashKey.Public()}
 				case "build":
 					payload = map[string]any{"data": m.data, "envelop": true}
 				case "correct":
@@ -527,7 +643,12 @@ func crashRun(repo, planFile string, seed int64, capPerDoc, nbytes int, bulkBin,
 				return seen, final, stderr.String(), runErr
 			}
 			seen, final, _, _ := runBatch(&reqs)
-			actionOf := func(i int) string { return []string{"build", "validate", "correct", "replicate"}[i%4] }
+			actionOf := func(i int) string {
+				if bulkInputs[i].mut == "empty-signature" {
+					return "verify"
+				}
+				return []string{"build", "validate", "correct", "replicate"}[i%4]
+			}
 			for i := start; i < end; i++ {
 				o, ok := seen[fmt.Sprint(i)]
 				msg := ""
@@ -537,6 +658,8 @@ func crashRun(repo, planFile string, seed int64, capPerDoc, nbytes int, bulkBin,
 					m := bulkInputs[i]
 					var payload any
 					switch actionOf(i) {
+					case "verify":
+						payload = map[string]any{"data": m.data, "publickey": crashKey.Public()}
 					case "build":
 						payload = map[string]any{"data": m.data, "envelop": true}
 					case "correct":
